@@ -1,0 +1,48 @@
+//go:build verif
+
+// Contracts for the deductive verifier in /verif (govc). Only compiled with -tags verif.
+
+package osutil
+
+// ---- C06: the order of system calls of an atomic write --------------------------------------------
+//
+// A crash leaves the complete old or the complete new content iff: the temporary file's data is synced
+// before it is renamed over the target, the rename is the only operation that touches the target, and
+// the directory is synced after the rename before success is reported. The obligations below are
+// call-order facts about the real functions (called("X"): X was called earlier on the path;
+// calledAfter("X","Y"): X was called after Y).
+
+// syncing is only ever skipped in test binaries
+//@ const [C06] snapdUnsafeIO: IsTestBinary() && GetenvBool("SNAPD_UNSAFE_IO", true)
+
+// chown is sys.Chown except in tests; it does not touch the AtomicFile (T5)
+//@ func var:chown
+//@   trusted
+//@   assigns nothing
+
+//@ func (*AtomicFile).commit
+//@   props C06
+//@   guard call os.Rename: [data-synced-first] snapdUnsafeIO || called("(*os.File).Sync")
+//@   guard call os.Rename: [closed-first] called("(*AtomicFile).Close")
+//@   guard call os.Rename: [temp-over-target] arg0 == aw.tmpname && arg1 == aw.target
+//@   guard call (*os.File).Sync: [which] (called("os.Rename") && arg0 == dir) || (!called("os.Rename") && arg0 == aw.File)
+//@   guard call os.Open: [dir-opened-before-rename] !called("os.Rename")
+//@   ensures [success-means-renamed] result == nil ==> called("os.Rename") && aw.renamed
+//@   ensures [success-means-dir-synced] result == nil && !snapdUnsafeIO ==> calledAfter("(*os.File).Sync", "os.Rename")
+//@   ensures [renamed-flag] !called("os.Rename") ==> aw.renamed == old(aw.renamed)
+
+// the content is complete before the commit starts, and nothing is written after it
+//@ func AtomicWriteChown
+//@   props C06
+//@   guard call (*AtomicFile).Commit: [after-copy] called("io.Copy")
+//@   guard call io.Copy: [before-commit] !called("(*AtomicFile).Commit")
+//@   ensures [commit-or-error] result == nil ==> called("(*AtomicFile).Commit")
+
+//@ func (*AtomicFile).Commit
+//@   props C06
+//@   guard call commit: arg0 == aw
+
+// cancelling never touches the target once the rename has happened
+//@ func (*AtomicFile).Cancel
+//@   props C06
+//@   guard call os.Remove: [only-temp] !aw.renamed && arg0 == aw.tmpname
